@@ -609,6 +609,16 @@ def run(ctx):
         "gcc 12 -O1 with ASan/UBSan, the host CPU",
     ]
 
+    if ctx.replay:
+        data = json.loads(Path(ctx.replay).read_text())
+        rec = data.get("replay") or {}
+        if "wrapper_src" not in rec:
+            raise InfraError("this replay file carries no executable record (a broken theorem without failing input)")
+        r = c14_exec.replay(exo, rec)
+        print(f"replay {rec['instr']}#{rec['case']}: {r['status']}: {' '.join(str(r['detail']).split())[:300]}")
+        judge_records(ctx, [r])
+        return
+
     # ---- 0. translation
     try:
         text, infos = tr.generate(exo)
